@@ -1,6 +1,7 @@
 """Regenerate coq/Gen/*.v from /repo's current source.  Fail-closed: anything outside the shapes each generator
 understands makes that Gen file a one-line syntax error, so every proof that depends on it stops compiling.
-Only `ast` and `re._parser` are used; the library is never imported."""
+Only `ast` and `re._parser` are used and the library is never imported - except for Rx.v, whose facts (which regex entry point
+match()/search() reach, with how many flags) are observed by running them in a subprocess under a recording proxy (rx_probe.py)."""
 import ast, hashlib, os, sys, traceback
 
 REPO = os.environ.get("VERIF_REPO", "/repo")
@@ -57,8 +58,8 @@ def generate():
         ("LexConst.v", gen_consts.emit_lex, ["lex.py"]),
         ("ParseConst.v", gen_consts.emit_parse, ["parse.py", "filter_expressions.py"]),
         ("Env.v", gen_consts.emit_env, ["environment.py", "function_extensions/length.py", "function_extensions/count.py",
-                                         "function_extensions/value.py", "function_extensions/match.py", "function_extensions/search.py",
-                                         "function_extensions/_pattern.py"]),
+                                         "function_extensions/value.py", "function_extensions/match.py", "function_extensions/search.py"]),
+        ("Rx.v", gen_consts.emit_rx, ["function_extensions/match.py", "function_extensions/search.py", "function_extensions/_pattern.py"]),
     ):
         try:
             write(name, fn(), status, sources)
